@@ -25,7 +25,7 @@ RULE = (
 )
 COMPONENTS = c01.COMPONENTS
 ASSUMPTIONS = c01.ASSUMPTIONS + ["inside edits are body-text changes and value changes of variables of the documented basic kinds read by name"]
-PROBES = ["outside_edit_compared", "inside_edit_compared", "depth>=4", "accept_prefix_deep", "decoys>=10", "lookalike_module",
+PROBES = ["nested_accepted_packages", "outside_edit_compared", "inside_edit_compared", "depth>=4", "accept_prefix_deep", "decoys>=10", "lookalike_module",
           "refusal_checked", "few_accepted_deep_module", "late_accept", "eval_before_accept", "lookalike_accepted_after"]
 
 
@@ -60,6 +60,13 @@ def gen_case(streams, tier, avoid):
         prog["pkg"][0] = "pk_ext"
         prog["accept_after"] = ["pk", "pk_ext_more"][: cfg.randint(1, 2)]
     pkg, acc = prog["pkg"], prog["accept"]
+    if cfg.random() < 0.35:
+        # accepted packages nested in one another: names below the accepted prefix (existing sub-packages or not)
+        base = ".".join(pkg[:acc])
+        cands = [base + ".a", base + ".a0.b", base + ".m", base + ".lib", base + ".zz", base + "." + (pkg[acc] if acc < len(pkg) else "m0")]
+        cfg.shuffle(cands)
+        prog["accept_nested"] = cands[: cfg.randint(1, 3)]
+        prog["accept_nested_first"] = cfg.random() < 0.5
     mods = ["extlib", f"{pkg[0]}x.lib", f"{pkg[0]}_b.lib"]
     if acc > 1:
         mods.append(".".join(pkg[:acc - 1] + [pkg[acc - 1] + "x", "lib"]))
@@ -114,6 +121,8 @@ def run_case(case):
             probe("depth>=4")
         if prog["accept"] >= 3:
             probe("accept_prefix_deep")
+        if prog.get("accept_nested"):
+            probe("nested_accepted_packages")
         if prog.get("decoys", 0) >= 10:
             probe("decoys>=10")
         if prog.get("decoys", 0) == 0 and len(prog["pkg"]) >= 3:
@@ -223,6 +232,8 @@ def tags(case):
     t.add(f"depth:{len(p['pkg'])}")
     t.add(f"acceptdepth:{p['accept']}")
     t.add("decoys:" + ("0" if not p.get("decoys") else "some"))
+    if p.get("accept_nested"):
+        t.add("accept:nested")
     return sorted(t)
 
 
